@@ -27,7 +27,7 @@ SPEC = dict(
     ],
     required=["test:accepted", "test:rejected", "update:accepted", "update:rejected", "setver:equal:rejected",
               "setver:lower:rejected", "setver:malformed:rejected", "setver:pep-equal:rejected", "korder_checked",
-              "update_scope:default", "update_scope:global", "update_scope:branch"],
+              "update_scope:default", "update_scope:global", "update_scope:branch", "fetch_failure_cases"],
     anchors=[("cli", "_is_valid_version"), ("v2version", "incr"), ("cli", "update"), ("cli", "test")],
 )
 
@@ -234,6 +234,7 @@ def run_update(ctx, case, R, tdy):
     d = harness.new_project(proj.encoded())
     fake = None
     env = None
+    fetch_arg = "--no-fetch"
     try:
         # optionally: tags served by a fake git (default scope => start = max(config, matching tags))
         if R.random() < 0.4:
@@ -265,6 +266,14 @@ def run_update(ctx, case, R, tdy):
                 else:
                     start_text = best
             ctx.count("update_scope:" + scope)
+            if R.random() < 0.15:
+                # the implicit fetch fails (unreachable remote): non-zero exit is fine, but a run that exits 0 must
+                # still start from the greatest local tag
+                fake.set_out("branch", "* main 0123abc [origin/main] msg\n")
+                fake.set_out("remote", "git@unreachable.example:x/y.git\n")
+                fake.fail_match(["git fetch"])
+                fetch_arg = "--fetch"
+                ctx.count("fetch_failure_cases")
             start_state = updates.new_state_from_text(proj.vp, start_text, tdy)
         else:
             start_state = st
@@ -286,6 +295,7 @@ def run_update(ctx, case, R, tdy):
             args.append("--dry")
         if cli_scope:
             args += ["--tag-scope", cli_scope]
+        args = [fetch_arg if a == "--no-fetch" else a for a in args]
         before = harness.snapshot(d)
         res = harness.invoke(args, cwd=d, env=env)
         after = harness.snapshot(d)
